@@ -497,7 +497,7 @@ class Parser:
             "lineno": parts[0].start[0],
             "col_offset": parts[0].start[1],
             "end_lineno": parts[-1].end[0],
-            "end_col_offset": parts[0].end[1],
+            "end_col_offset": parts[-1].end[1],
         }
         if parts[0].string.startswith("u"):
             args["kind"] = "u"
